@@ -162,5 +162,45 @@ func init() {
 			})
 		}
 		ex.setBool("c12LenCountsValuedNodesAndRoot", lenOk, ln != nil && ml != nil && sl != nil, "MixMatcher.Len = full + domain + regex + keyword; SubDomainMatcher.Len = labelNode.len of the root (valued nodes below it) + 1 if the root itself has a value")
+		// ---- rules that carry values: the way from a line of text to Add
+		// (e) hosts.ParseIPs: the rule is the first blank-separated field exactly as written (a regular
+		// expression must reach RegexMatcher.Add unchanged); `pattern` is assigned once and returned
+		const hrel = "pkg/hosts/hosts.go"
+		pi := ex.fn(hrel, "", "ParseIPs")
+		asWritten := false
+		if pi != nil {
+			ss := stmtStrings(ex, pi.Body)
+			asWritten = contains(ss, "f := strings.Fields(s)") && contains(ss, "pattern := f[0]") && contains(ss, "return pattern, v, nil")
+			ast.Inspect(pi.Body, func(n ast.Node) bool {
+				if as, isA := n.(*ast.AssignStmt); isA {
+					for _, l := range as.Lhs {
+						if ex.str(l) == "pattern" && ex.str(as) != "pattern := f[0]" {
+							asWritten = false
+						}
+					}
+				}
+				return true
+			})
+		}
+		ex.setBool("c12HostsRuleAsWritten", asWritten, pi != nil, "hosts.ParseIPs: `pattern := f[0]` (first field of strings.Fields(s)) is the only assignment to pattern, and it is returned")
+		// (f) the text loader hands every line on as a string of its own (scanner.Text() copies out of the
+		// scanner's read buffer; the sub-matchers keep substrings of it as map keys / trie labels), and Load
+		// passes what parseString returned straight to Add
+		const lrel = "pkg/matcher/domain/load_helper.go"
+		lt := ex.fn(lrel, "", "LoadFromTextReader")
+		ld := ex.fn(lrel, "", "Load")
+		copies := false
+		if lt != nil && ld != nil {
+			ss := stmtStrings(ex, lt.Body)
+			copies = contains(ss, "s := scanner.Text()") && contains(ss, "err := Load(m, s, parseString)")
+			for _, c := range ex.calls(lt.Body) {
+				if c == "scanner.Bytes" || strings.Contains(c, "Unsafe") || strings.HasPrefix(c, "unsafe.") {
+					copies = false
+				}
+			}
+			ls := stmtStrings(ex, ld.Body)
+			copies = copies && contains(ls, "pattern, v, err := parseString(s)") && contains(ls, "return m.Add(pattern, v)")
+		}
+		ex.setBool("c12LoaderOwnsLineStrings", copies, lt != nil && ld != nil, "LoadFromTextReader: `s := scanner.Text()` (a copy; no scanner.Bytes / unsafe conversion), each non-empty line goes to Load, which returns m.Add(pattern, v) of what parseString gave")
 	})
 }
